@@ -451,42 +451,43 @@ theorem number_append (l1 l2 : List Comp) : ∀ i, number i (l1 ++ l2) = number 
 
 /-! ### assembling -/
 
-theorem orAll_spec : ∀ (l : List (Option CR)) (r : CR), orAll l = some r →
-    (∀ x ∈ l, ∃ rx, x = some rx ∧ (r.cut = false → rx.cut = false) ∧ (r.clash = false → rx.clash = false)) ∧
-    (r.clash = true → ∃ rx, some rx ∈ l ∧ rx.clash = true) := by
+theorem orAllB_spec : ∀ (l : List (Option Bool)) (r : Bool), orAllB l = some r →
+    (r = false → ∀ x ∈ l, x = some false) ∧ (r = true → some true ∈ l) ∧ (∀ x ∈ l, x ≠ none) := by
   intro l
   induction l with
-  | nil => intro r h; simp [orAll] at h; subst h; simp [CR.no]
+  | nil => intro r h; simp [orAllB] at h; subst h; simp
   | cons x rest ih =>
     intro r h
-    unfold orAll at h
+    unfold orAllB at h
     cases x with
     | none => simp at h
     | some a =>
-      cases hr : orAll rest with
+      cases hr : orAllB rest with
       | none => rw [hr] at h; simp at h
       | some b =>
         rw [hr] at h; simp at h; subst h
-        obtain ⟨i1, i2⟩ := ih b hr
-        constructor
+        obtain ⟨i1, i2, i3⟩ := ih b hr
+        refine ⟨?_, ?_, ?_⟩
+        · intro h y hy
+          simp at h
+          rcases List.mem_cons.1 hy with rfl | hy'
+          · rw [h.1]
+          · exact i1 h.2 y hy'
+        · intro h
+          simp at h
+          rcases h with h | h
+          · subst h; exact List.mem_cons_self
+          · exact List.mem_cons_of_mem _ (i2 h)
         · intro y hy
           rcases List.mem_cons.1 hy with rfl | hy'
-          · refine ⟨a, rfl, ?_, ?_⟩ <;> (intro h; simp [CR.or] at h; exact h.1)
-          · obtain ⟨rx, e, c1, c2⟩ := i1 y hy'
-            refine ⟨rx, e, ?_, ?_⟩
-            · intro h; simp [CR.or] at h; exact c1 h.2
-            · intro h; simp [CR.or] at h; exact c2 h.2
-        · intro h
-          simp [CR.or] at h
-          rcases h with h | h
-          · exact ⟨a, List.mem_cons_self, h⟩
-          · obtain ⟨rx, m, c⟩ := i2 h; exact ⟨rx, List.mem_cons_of_mem _ m, c⟩
+          · simp
+          · exact i3 y hy'
 
 /-- one SEQUENCE / SET / CHOICE: duplicate identifier or tag clash reported iff the node
     violates the property's demands -/
 theorem nodeFatal_constr {M : Module} {g : Option Tag} {k : CKind} {r : List Comp} {h : Bool}
-    {a : List Comp} {rx : CR} (hn : nodeFatal M (.constr g k r h a) = some rx) (hc : rx.cut = false) :
-    rx.clash = false ↔ NodeOk M (.constr g k r h a) := by
+    {a : List Comp} {rx : Bool} (hn : nodeFatal M (.constr g k r h a) = some rx) :
+    rx = false ↔ NodeOk M (.constr g k r h a) := by
   simp only [nodeFatal] at hn
   cases hcomps : Asn1c.Impl.Fixer.comps M r h a with
   | none => rw [hcomps] at hn; simp at hn
@@ -496,77 +497,69 @@ theorem nodeFatal_constr {M : Module} {g : Option Tag} {k : CKind} {r : List Com
     | none => rw [hd] at hn; simp at hn
     | some c =>
       rw [hd] at hn; simp at hn; subst hn
-      simp only at hc
       unfold NodeOk
       simp only [Bool.or_eq_false_iff]
-      rw [dupNames_nil_iff, checkDistinct_spec M _ ss c hd hc, allOk_rel (comps_rel hcomps),
+      rw [dupNames_nil_iff, checkDistinct_spec M _ ss c hd, allOk_rel (comps_rel hcomps),
         allOk_iff_tagsDistinct, List.map_append]
 
 theorem nodeFatal_enum {M : Module} {g : Option Tag} {r : List EnumItem} {h : Bool}
-    {a : List EnumItem} {rx : CR} (hn : nodeFatal M (.enum g r h a) = some rx)
+    {a : List EnumItem} {rx : Bool} (hn : nodeFatal M (.enum g r h a) = some rx)
     (hag : EnumAgrees (.enum g r h a)) :
-    rx.clash = false ↔ NodeOk M (.enum g r h a) := by
+    rx = false ↔ NodeOk M (.enum g r h a) := by
   simp only [nodeFatal] at hn
   simp at hn; subst hn
   unfold NodeOk
   exact fixEnum_enumOk hag
 
+/-- what one node's catalogue check says, whenever it answers -/
+theorem nodeFatal_iff {M : Module} {t : Ty} (ht : t ∈ M.nodes) {rx : Bool} (e : nodeFatal M t = some rx)
+    (hag : EnumAgrees t) (hx : rx = false) : NodeOk M t := by
+  subst hx
+  cases t with
+  | prim g p => trivial
+  | seqOf g el => trivial
+  | enum g rr hh aa => exact (nodeFatal_enum e hag).1 rfl
+  | constr g k rr hh aa => exact (nodeFatal_constr e).1 rfl
+  | ref g n =>
+    simp only [NodeOk]
+    apply derefFatal_false_defined (g := g)
+    simpa only [nodeFatal] using e
+
 /-- **the catalogue checks of the fixer decide `Spec.consistent`** -/
-theorem catalogue_iff {M : Module} {r : CR} (hrun : catalogueFatal M = some r) (hcut : r.cut = false)
-    (henum : ∀ t ∈ M.nodes, EnumAgrees t) : r.clash = false ↔ consistent M := by
+theorem catalogue_iff {M : Module} {r : Bool} (hrun : catalogueFatal M = some r)
+    (henum : ∀ t ∈ M.nodes, EnumAgrees t) : r = false ↔ consistent M := by
   unfold catalogueFatal at hrun
-  obtain ⟨h1, h2⟩ := orAll_spec _ r hrun
+  obtain ⟨h1, h2, _⟩ := orAllB_spec _ r hrun
   unfold consistent
   constructor
   · intro hcl t ht
-    obtain ⟨rx, e, c1, c2⟩ := h1 _ (List.mem_map.2 ⟨t, ht, rfl⟩)
-    have hx := c2 hcl
-    have hxc := c1 hcut
-    cases t with
-    | prim g p => trivial
-    | seqOf g el => trivial
-    | enum g rr hh aa => exact (nodeFatal_enum e (henum _ ht)).1 hx
-    | constr g k rr hh aa => exact (nodeFatal_constr e hxc).1 hx
-    | ref g n =>
-      simp only [NodeOk]
-      apply derefFatal_false_defined (g := g)
-      simp only [nodeFatal] at e
-      cases hd : derefFatal M (.ref g n) with
-      | none => rw [hd] at e; simp at e
-      | some f => rw [hd] at e; simp at e; subst e; simp at hx; rw [hx]
+    have e := h1 hcl _ (List.mem_map.2 ⟨t, ht, rfl⟩)
+    exact nodeFatal_iff ht e (henum _ ht) rfl
   · intro hall
-    cases hcl : r.clash with
+    cases hcl : r with
     | false => rfl
     | true =>
       exfalso
-      obtain ⟨rx, hm, hx⟩ := h2 hcl
-      obtain ⟨t, ht, e⟩ := List.mem_map.1 hm
-      obtain ⟨rx', e', c1, _⟩ := h1 _ (List.mem_map.2 ⟨t, ht, rfl⟩)
-      rw [e] at e'; cases e'
-      have hxc := c1 hcut
+      obtain ⟨t, ht, e⟩ := List.mem_map.1 (h2 hcl)
       cases t with
-      | prim g p => simp [nodeFatal, CR.no] at e; subst e; cases hx
-      | seqOf g el => simp [nodeFatal, CR.no] at e; subst e; cases hx
+      | prim g p => simp [nodeFatal] at e
+      | seqOf g el => simp [nodeFatal] at e
       | enum g rr hh aa =>
         have := (nodeFatal_enum e (henum _ ht)).2 (hall _ ht)
-        rw [this] at hx; cases hx
+        cases this
       | constr g k rr hh aa =>
-        have := (nodeFatal_constr e hxc).2 (hall _ ht)
-        rw [this] at hx; cases hx
+        have := (nodeFatal_constr e).2 (hall _ ht)
+        cases this
       | ref g n =>
         simp only [nodeFatal] at e
-        cases hd : derefFatal M (.ref g n) with
-        | none => rw [hd] at e; simp at e
-        | some f =>
-          rw [hd] at e; simp at e; subst e; simp at hx; subst hx
-          unfold derefFatal at hd
-          cases hft : findTerminal M (fuel M) (.ref g n) with
-          | found t' => rw [hft] at hd; simp at hd
-          | loop => rw [hft] at hd; simp at hd
-          | missing =>
-            obtain ⟨g', n', hm', hl⟩ := findTerminal_missing M _ _ hft ht
-            have := hall _ hm'
-            simp only [NodeOk] at this
-            rw [hl] at this; cases this
+        unfold derefFatal at e
+        cases hft : findTerminal M (fuel M) (.ref g n) with
+        | found t' => rw [hft] at e; simp at e
+        | loop => rw [hft] at e; simp at e
+        | missing =>
+          obtain ⟨g', n', hm', hl⟩ := findTerminal_missing M _ _ hft ht
+          have := hall _ hm'
+          simp only [NodeOk] at this
+          rw [hl] at this; cases this
 
 end Asn1c.Proofs.Fixer
